@@ -92,7 +92,8 @@ def mass_params():
     return st.fixed_dictionaries({
         "plate_bot": G.floats(0.5, 50.0), "plate_top": G.floats(0.5, 50.0),
         "shaft": G.floats(0.05, 5.0), "motor": G.floats(0.05, 5.0),
-        "motor_cog": G.floats(0.02, 0.4), "shaft_cog": G.floats(0.02, 0.4),
+        "motor_cog": st.one_of(G.floats(0.02, 0.4), G.floats(0.02, 0.4), st.just(0.0)),
+        "shaft_cog": st.one_of(G.floats(0.02, 0.4), G.floats(0.02, 0.4), st.just(0.0)),      # 0: centre of gravity AT the joint
     })
 
 
